@@ -3,6 +3,7 @@
    spec/ThriftShapes.tla (lattice of value shapes per IDL struct), spec/ThriftBuffer.tla (buffer model)."""
 import json
 import os
+import shutil
 import pickle
 import re
 import traceback
@@ -367,6 +368,7 @@ def route_job(args):
 
     for pi, P in enumerate(programs):
         d = os.path.join(base, "r%d-%d" % (jid, pi))
+        shutil.rmtree(d, ignore_errors=True)      # a re-run of this job (after a time-out) starts clean
         os.makedirs(d)
         src = "%s-%s" % (P["origin"], P["store"])
         try:
